@@ -42,6 +42,9 @@ T = {
  "C12": ("exploration", "timed-tap monitor over virtual-time scenarios: real heartbeat and reader tasks against a scripted peer; verdicts from tapped frames with virtual timestamps, state and callbacks", "§4 C12",
          "Grid of heartbeat interval x role x tick phase x peer pattern (silent, burst then silent, periodic traffic, Heartbeats every h, TestRequests answered after a delay, wrong / missing / duplicate answers, application TestRequests, inbound TestRequests with hostile ids) plus random mixtures on the virtual-time loop: TestRequest within [h-1,h+1] of silence, disconnect by 3h+2, live peers survive 12 intervals, identical TestReqID echoed first, never two TestRequests outstanding, wrong id ends with a Logout.",
          "'never' is a 12-interval horizon; answers later than 2h-2.1 s and traffic slower than max(h/2, h-1.1) without answers are unspecified"),
+ "C14": ("exploration", "controlled scheduler (gates on every drain() and awaited application hook; task starts, inbound deliveries and clock ticks as scheduler options) with exhaustive DFS over the first decisions + random schedules; oracle over transport tap, senders' results, journal and stored counter", "§4 C14",
+         "Eleven scenarios on a fresh real connection (concurrent application senders, application and heartbeat-task TestRequests, reader servicing a ResendRequest / a Logon / a TestRequest / a gap / a wrong TestReqID) explored by stateless re-execution over all choice sequences of the first 7 (quick) / 11 (thorough) decisions, greedy afterwards, plus random schedules: new frames strictly increasing and gap-free in wire order, numbers reused only by PossDup / gap-fill retransmissions, no DuplicateSeqNoError, every new frame journaled under its number, stored next-out = highest + 1, all tasks finish.",
+         "drain waiters are released FIFO; a bare asyncio.sleep(0) in the library is gated too; other un-gated suspension points (none today) would not be explored"),
  "C02": ("exploration", "independent strict framer as oracle on encoder output and on every tapped transport write", "§4 C02",
          "Every byte string the encoder returns for generated messages (incl. non-ASCII) and every write() of a real connection during random session histories is parsed by an independent strict FIX framer (BodyLength/CheckSum recomputed on bytes).",
          "vf.ref.fixwire is the definition of well-formed; empty values tolerated"),
